@@ -105,5 +105,63 @@ for name, fn in [("Size off by one in an audit", size_off), ("a document missing
                  ("Count off by one", count_off), ("a panic outcome", panic_outcome),
                  ("keys of a dropped collection left", ghost_collection)]:
     try_corruption(name, fn)
+
+# ---- the other trace specifications: one corruption each
+import re
+
+def tlc_accepts(module, cfg, path, deque=False):
+    r = core.tlc(ctx, module, cfg, "st-" + module, env={"TRACE_FILE": path}, workers=1, heap="4g", timeout=600, deque=deque)
+    if module == "TraceLin":
+        m = re.search(r'<<"HIGHWATER", (\d+), (\d+)>>', r["out"])
+        return bool(m) and int(m.group(1)) == int(m.group(2)) + 1 and r["ok"]
+    return r["ok"]
+
+def check(name, module, cfg, lines, mutate, deque=False):
+    global bad
+    p0 = os.path.join(ctx.work, "st-%s-base.ndjson" % module)
+    open(p0, "w").writelines(lines)
+    assert tlc_accepts(module, cfg, p0, deque), "base %s trace must conform" % module
+    new = mutate([json.loads(l) for l in lines])
+    p1 = os.path.join(ctx.work, "st-%s-bad.ndjson" % module)
+    open(p1, "w").writelines(json.dumps(e) + "\n" for e in new)
+    ok = not tlc_accepts(module, cfg, p1, deque)
+    print("%-34s -> %s" % (name, "rejected (%s)" % module if ok else "ACCEPTED"))
+    if not ok:
+        bad += 1
+
+# key layout: a seek that lost the terminator of the field name
+kout = os.path.join(ctx.work, "keys.ndjson")
+core.run_driver(ctx, ["aux", "-kind", "keys", "-seed", "7", "-n", "4", "-out", kout])
+def unterminated_seek(evs):
+    for e in evs:
+        for ph in e.get("phases", []):
+            if ph["ph"] == "dropindex":
+                ph["seeks"] = [ph["seeks"][0][:-1]]
+                return evs
+check("an index seek without terminator", "TraceAux", core.TRACE_CFG % "InvAux", open(kout).readlines(), unterminated_seek)
+
+# concurrency: a Count that still reports the size before an acknowledged insert
+cout = os.path.join(ctx.work, "conc.ndjson")
+core.run_driver(ctx, ["conc", "-seed", "7", "-n", "1", "-maxg", "2", "-ops", "2", "-backends", "bolt", "-out", cout])
+def stale_final_state(evs):
+    for e in evs:
+        if e.get("t") == "audit":
+            for c in e["audit"]["colls"]:
+                c["size"] += 1
+            return evs
+check("a final state nobody produced", "TraceLin", core.LIN_CFG, open(cout).readlines(), stale_final_state, deque=True)
+
+# normalisation: a struct field that ignored its rename tag
+nout = os.path.join(ctx.work, "norm.ndjson")
+core.run_driver(ctx, ["aux", "-kind", "norm", "-seed", "7", "-n", "200", "-out", nout])
+def wrong_key(evs):
+    for e in evs:
+        if e.get("kind") == "norm" and e["obs"][0] == "set" and e["obs"][1][0] == "obj" and e["obs"][1][1]:
+            e["obs"][1][1][0][0] = [122, 122]
+            return evs
+# (the first line of a norm trace is the witness of an open known finding: left out)
+check("a normalised key renamed", "TraceAux", core.TRACE_CFG % "InvAux",
+      [l for l in open(nout).readlines() if "invalid-utf8" not in l], wrong_key)
+
 ctx.cleanup()
 sys.exit(1 if bad else 0)
